@@ -101,10 +101,17 @@ def oracle_one(case: Any, dump: Any) -> List[Dict[str, Any]]:
             continue
         if P.bound_names(case['mods'][r['D']]).count(r['x']) != 1:
             continue
+        # only when the direct import is the only way the name reaches R (a star import of a third module that
+        # imported it may legitimately move it: that module does not list it)
+        if P.bound_names(case['mods'][r['R']]).count(r['n']) != 1 or any(st[0] == 'star' for st in case['mods'][r['R']]['stmts']):
+            continue
         old = fn[r['D']] + '.' + r['x']
-        if old not in objects:
-            fails.append({'kind': 'kept', 'via': None, 'what': '%s is listed in the __all__ of its defining module and imported by '
-                          '%s, but is no longer documented as %s' % (r['x'], fn[r['R']], old)})
+        new = fn[r['R']] + '.' + r['n']
+        ddef = P.defs_of(case['mods'][r['D']])[r['x']]
+        # (the object may legitimately be moved by a module that imports it from a THIRD module which does not list it)
+        if old not in objects and new in objects and ddef[2] is not None and objects[new][2] == ddef[2]:
+            fails.append({'kind': 'kept', 'via': None, 'what': '%s is listed in the __all__ of its defining module %s, yet the '
+                          'import of it from there by %s moved it to %s' % (r['x'], fn[r['D']], fn[r['R']], new)})
     for r in claimed_reexports(case):
         Rn, Dn = fn[r['R']], fn[r['D']]
         new, old = Rn + '.' + r['n'], Dn + '.' + r['x']
@@ -153,9 +160,10 @@ def oracle_one(case: Any, dump: Any) -> List[Dict[str, Any]]:
                     if ent is None or ent[5] is None or pos >= len(ent[5]):
                         continue
                     if ent[5][pos] != expected:
-                        fails.append({'kind': 'base', 'via': via,
-                                      'what': 'base %r of class %s.%s (%s) resolves to %r, not to %s'
-                                              % (b, fn[mi], st[1], via, ent[5][pos], expected)})
+                        fails.append({'kind': 'base', 'via': via, 'moved_class': bool(rr),
+                                      'what': 'base %r of class %s.%s (%s)%s resolves to %r, not to %s'
+                                              % (b, fn[mi], st[1], via, ', a class that is itself moved by a re-export,' if rr else '',
+                                                 ent[5][pos], expected)})
         for q, ans in zip(case.get('queries', []), dump.get('answers', [])):
             if ans is None:
                 continue
@@ -201,15 +209,18 @@ class Check(c06.Check):
     assumptions = ['each object has at most one re-exporter; the defining module does not (transitively) import the re-exporter',
                    'theorems: see Props/C07.v for the exact hypotheses']
     manifest = {
-        'text': ('Model/Project.v (+ Model/Linker.v: link_to and the lookup ladder of _resolve_identifier_xref). Theorems over all '
-                 'projects and schedules within the hypotheses of Props/C07.v: the re-exported object and its members are registered '
-                 'exactly under the re-exporter, the defining module keeps an alias, find_object by the old name, references through '
-                 'the re-exporter and through a module alias reach it; the reference through `from <defining module> import <name>` is '
-                 'REFUTED (C07_reach_via_defining_module_refuted; known finding). Tie: per-schedule model/implementation diff incl. '
-                 'resolveName / link_to / xref answers; oracle on the real tool: one registered object under R.n, every reference that '
-                 'names either location reaches it.'),
-        'note': 'Partial: one reachability path is refuted on the unchanged tree (known finding C07-stale-defining-module-name).',
-        'technique': 'Coq proof (step invariants of an explicit-stack machine) + exhaustive-schedule model/implementation correspondence',
+        'text': ('Model/Project.v + Model/Linker.v (link_to and the lookup ladder of _resolve_identifier_xref). PROVED for ALL projects '
+                 'and ALL schedules (C07_moved_once): if R imports x from D by name (plain or renamed, absolute or relative) and lists '
+                 'it in __all__, D does not list it and has no from-imports, nothing else re-exports, then the final registry is exactly '
+                 'the static one with x and everything below it under R.n, D.contents lacks x, R.contents has n, D keeps the alias '
+                 'x -> R.n. On any such state references through the re-exporter, through a module alias and find_object by the old '
+                 'name reach the object (C07_reach_*_partial). REFUTED (known finding): the reference through `from <defining module> '
+                 'import <name>` (C07_reach_via_defining_module_refuted). Tie: per-schedule model/implementation diff incl. resolveName / '
+                 'link_to / xref / find_object answers on the whole re-export matrix under every schedule; oracle on the real tool.'),
+        'note': ('Partial: star-import re-exports, defining modules with from-imports and several re-exports per project are covered by '
+                 'the correspondence check and the oracle only; the alias maps of consumers are hypotheses of the reach theorems. Two '
+                 'genuine defects recorded as known findings.'),
+        'technique': 'Coq proof (step invariants of an explicit-stack machine, two-phase invariant around reparent) + exhaustive-schedule correspondence',
     }
 
     def gen_cases(self, thorough: bool) -> List[Any]:
@@ -261,9 +272,15 @@ class Check(c06.Check):
             return None
         by = {k['id']: k for k in known}
         fails = v.observed['fails']
-        if fails and all(f['via'] in KNOWN_VIAS and f['kind'] in ('base', 'resolveName', 'link_to', 'xref', 'doclink')
-                         for f in fails):
+        def stale(f: Any) -> bool:
+            return f['via'] in KNOWN_VIAS and f['kind'] in ('base', 'resolveName', 'link_to', 'xref', 'doclink')
+
+        def rescoped(f: Any) -> bool:
+            return f['kind'] == 'base' and f.get('moved_class') is True
+        if fails and all(stale(f) for f in fails):
             return by.get('C07-stale-defining-module-name')
+        if fails and all(stale(f) or rescoped(f) for f in fails):
+            return by.get('C07-moved-consumer-bases-rescoped')
         if fails and all(f['kind'] == 'stale-dup-member' for f in fails):
             return by.get('C07-superseded-member-left-behind')
         return None
